@@ -8,8 +8,10 @@ model:        specs/RelAlg.tla   reference semantics Eval / Accepts of the docum
                                  leave no trace in what later reads return)
               specs/FeedCacheImpl.tla  as-is result cache (frames per process, disk under FORML_HOME, lazy registration)
               specs/FactorsImpl.tla    as-is predicate factorisation (predicts the parser crashes of the listed findings)
+              specs/ClauseMix.tla  TLC enumerates the clauses of an aggregating query in every combination of presence
+                                 (having without groupby, ...), flat and nested: part of the statement stream
 code -> spec: PARSER LEVEL.  harness.dslgen statements (all up to the depth bound) + harness.relgen seeded random
-              statements x 3 seeded table contents (NULLs, duplicates, empty tables) are built with the real DSL, parsed
+              statements + the ClauseMix statements x 3 seeded table contents (NULLs, duplicates, empty tables) are built with the real DSL, parsed
               by the real alchemy.Parser and executed on SQLite and DuckDB; specs/TraceReads.tla decides every
               observation with Accepts (an exception on a well-formed statement is a rejection).
 spec -> code: READER LEVEL.  TLC enumerates every history of {Read(f,s), Mutate(f), Restart} up to the depth bound for
@@ -118,9 +120,34 @@ def _pool_observe(task):
     return idx, runs
 
 
+_MIX = {}
+
+
+def clause_mix(chk):
+    """Statements of specs/ClauseMix.tla (TLC enumerates every combination of presence of the clauses of an aggregating
+    query, flat and nested); returns (statements, canon keys).  One TLC run per check."""
+    if id(chk) not in _MIX:
+        res = chk.tlc('ClauseMix', 'ClauseMix.cfg', workers=2, coverage=False, timeout=600)
+        head = res.tuples('CLAUSEMIX')
+        asts = list({g.canon(e['ast']): e['ast'] for e in res.json_prints() if 'ast' in e}.values())
+        # vacuity guard without -coverage: every statement of the family is one initial state and one export
+        if not head or head[0][0] != res.distinct or len(asts) != res.distinct or not asts:
+            raise tlc.MachineryError(f'ClauseMix: {len(asts)} statements exported, {res.distinct} states\n{res.stdout[-1500:]}')
+        kept = [a for a in asts if not relgen.excluded(a)]
+        bare = lambda a: a['l']['l'] if a['l']['t'] == 'ref' else a
+        ungrouped = [a for a in kept if bare(a)['having']['f'] != 'nil' and not bare(a)['group']]
+        if len(kept) * 10 < len(asts) * 9 or not ungrouped or all(a['l']['t'] != 'ref' for a in ungrouped):
+            raise tlc.MachineryError(f'ClauseMix: only {len(kept)} of {len(asts)} statements are inside the compared '
+                                     f'semantics ({len(ungrouped)} with having and no groupby)')
+        chk.coverage['ClauseMix.statements'] = (len(kept), len(asts))
+        _MIX[id(chk)] = (kept, {g.canon(a) for a in kept})
+    return _MIX[id(chk)]
+
+
 def statement_stream(chk):
     """The statements of this tier with the count of those outside the compared semantics (by reason)."""
     rnd = random.Random(chk.seed)
+    mix, _ = clause_mix(chk)
     if chk.quick:
         pool = g.statements(2, False)
         extra = relgen.semantic_statements(chk.seed + 1, 1500, 2)
@@ -135,7 +162,7 @@ def statement_stream(chk):
                 extra.append(stmt)
     reasons = collections.Counter()
     out, seen = [], set()
-    for stmt in pool + extra:
+    for stmt in pool + extra + mix:
         key = g.canon(stmt)
         if key in seen:
             continue
@@ -330,7 +357,10 @@ CONFIGS = [('alchemy', 'FeedsAB', {'f1': 'alchemy', 'f2': 'alchemy'}, (), (), No
            # histories with storage faults: an alchemy and a lazy feed whose storages do not exist at the start (and
            # can be lost again), a second lazy feed over a sound storage; two of the statements
            ('faulty', 'FeedsFM', {'f1': 'alchemy', 'm1': 'monolite', 'm2': 'monolite'}, ('f1', 'm1'), ('f1', 'm1'),
-            (1, 3), (300, 2500))]
+            (1, 3), (300, 2500)),
+           # two SQL feeds over ONE database (same connection URL), each provisioning the schema from a physical table
+           # of its own ("current" / "archive"): the feeds differ in nothing but their source mapping
+           ('shared', 'FeedsST', {'t1': 'alchemy-shared', 't2': 'alchemy-shared'}, (), (), None, (220, 1500))]
 
 
 def reader_statements():
@@ -340,12 +370,12 @@ def reader_statements():
             above(15), above(35)]
 
 
-def reads_cfg(name, feeds_def, lazy, depth, invariants, faulty=(), unavail=(), stmts=None):
+def reads_cfg(name, feeds_def, lazy, depth, invariants, faulty=(), unavail=(), stmts=None, own=()):
     path = os.path.abspath(f'reads-{name}-{"-".join(invariants)}.cfg')
     names = lambda xs: '{' + ', '.join(chr(34) + x + chr(34) for x in xs) + '}'
     with open(path, 'w') as fh:
         fh.write(f'SPECIFICATION ISpec\nCONSTANTS Feeds <- {feeds_def}\n Depth = {depth}\n'
-                 f' Lazy = {names(lazy)}\n Faulty = {names(faulty)}\n Unavail0 = {names(unavail)}\n'
+                 f' Lazy = {names(lazy)}\n OwnName = {names(own)}\n Faulty = {names(faulty)}\n Unavail0 = {names(unavail)}\n'
                  + (' ReadStmts <- AllStmts\n' if stmts is None else f' ReadStmts = {{{", ".join(map(str, stmts))}}}\n')
                  + ' Lits <- NoLits\n' + ''.join(f'INVARIANT {i}\n' for i in invariants) + 'CHECK_DEADLOCK FALSE\n')
     return path
@@ -449,11 +479,14 @@ def replay_histories(jobs, zygotes=None):
 def read_finding(hist, feeds, k, reads):
     """Input class of read number k (0-based, among the reads) of a history - decided from the history alone:
     F_CACHE  an earlier read of the same statement (same SQL text) exists anywhere in the history (any feed, any
-             process: memory frames / on-disk cache under the kept home directory)
+             process: memory frames / on-disk cache under the kept home directory); feeds that provision the schema from
+             a physical table of their own name (alchemy-shared) generate a SQL text of their own: only an earlier
+             read through the SAME feed is in the class
     F_LAZY   the read goes through a lazy (monolite) feed and an earlier read through a lazy feed happened in the
              same process (the table was registered into the process-global backend then)."""
     me = reads[k]
-    if any(r['s'] == me['s'] for r in reads[:k]):
+    own = lambda f: f if feeds[f] == 'alchemy-shared' else ''
+    if any(r['s'] == me['s'] and own(r['f']) == own(me['f']) for r in reads[:k]):
         return F_CACHE
     if feeds[me['f']] == 'monolite':
         start = max([i for i, a in enumerate(hist[:me['at'] - 1], start=1) if a['a'] == 'restart'], default=0)
@@ -468,7 +501,8 @@ def reader_level(chk, zygotes=None):
     summary = {}
     for name, feeds_def, feeds, faulty, unavail, stmt_ids, caps in CONFIGS:
         lazy = [f for f, kind in feeds.items() if kind == 'monolite']
-        extra = {'faulty': faulty, 'unavail': unavail, 'stmts': stmt_ids}
+        extra = {'faulty': faulty, 'unavail': unavail, 'stmts': stmt_ids,
+                 'own': [f for f, kind in feeds.items() if kind == 'alchemy-shared']}
         # the as-is cache model does NOT refine the requirement: TLC has to exhibit a stale / foreign read
         res = chk.tlc('FeedCacheImpl', reads_cfg(name, feeds_def, lazy, depth, ['Fresh'], **extra), expect_ok=False,
                       workers=2, coverage=False)
